@@ -33,6 +33,16 @@ func NumCPU() int {
 	return runtime.NumCPU()
 }
 
+// GoMaxProcs replaces runtime.GOMAXPROCS in instrumented files: a query (n < 1) answers the CPU-count
+// override when one is set (a process restricted to k CPUs normally runs with GOMAXPROCS = k); a setting
+// call is passed through.
+func GoMaxProcs(n int) int {
+	if n < 1 && numCPUOverride > 0 {
+		return numCPUOverride
+	}
+	return runtime.GOMAXPROCS(n)
+}
+
 // Instrumented reports that the concurrency rewrite is compiled in (the harness uses it to tell the
 // scheduled flavour from the exports-only fallback flavour).
 var Instrumented = false
